@@ -1,5 +1,6 @@
 (* Witness for the remaining known finding of C32 (known_findings/C32.json).  The witnesses for SetInstance.is_empty,
-   SetInstance.create and Entity.flush were removed when /repo 743d82e repaired them (see Props/C32.v, C32_guarded_repaired). *)
+   SetInstance.create and Entity.flush were removed when /repo 743d82e repaired them (see Props/C32.v, C32_guarded_repaired); the one for the unguarded
+   _load_many_ call in Set.copy (introduced by 50e342a) when 233f906 repaired it. *)
 Require Import PonyV.Base.PyBase PonyV.Model.C32Guard PonyV.Gen.Guards PonyV.Proofs.C32Proofs.
 
 (* in-place change of a tracked Json/array value: the change is applied before the guard raises *)
